@@ -111,9 +111,24 @@ impl<'a> G<'a> {
         if depth == 0 || self.rng.chance(1, 4) {
             return self.leaf();
         }
-        let k = self.rng.below(20);
+        let k = self.rng.below(23);
         *self.fstats.entry(format!("op{}", k)).or_insert(0) += 1;
         match k {
+            // bit operations: both operands dimensionless (integers; anything else is refused for its value)
+            20 | 21 => { let (a, da) = if self.rng.chance(1, 2) { (format!("{}", self.rng.below(256)), Ok(DV::new())) } else { self.expr(depth - 1) };
+                let (b, db) = if self.rng.chance(1, 2) { (format!("{}", self.rng.below(256)), Ok(DV::new())) } else { self.expr(depth - 1) };
+                let op = *self.rng.pick(&["and", "or", "xor"]);
+                let r = match (&da, &db) { (Ok(x), Ok(y)) if x.is_empty() && y.is_empty() => Ok(DV::new()), _ => Err(()) };
+                (format!("({}) {} ({})", a, op, b), r) }
+            // shifts: the count is dimensionless, the result keeps the left operand's dimensionality
+            22 => { let (a, da) = self.expr(depth - 1);
+                // (a small literal count, or a dimensioned count, which is refused before anything is computed)
+                let (b, db): (String, Result<DV, ()>) = if self.rng.chance(2, 3) { (format!("{}", self.rng.range(-4, 9)), Ok(DV::new())) } else {
+                    let n = self.db.rand_name(self.rng);
+                    match self.db.lookup(&n) { Some(v) if !v.unit.is_dimensionless() => (n, Ok(dv_of(&v.unit))), _ => ("3".to_string(), Ok(DV::new())) } };
+                let op = *self.rng.pick(&["<<", ">>"]);
+                let r = match (&da, &db) { (Ok(x), Ok(y)) if y.is_empty() => Ok(x.clone()), _ => Err(()) };
+                (format!("({}) {} ({})", a, op, b), r) }
             0 | 1 => { let (a, da) = self.expr(depth - 1); let (b, db) = self.expr(depth - 1);
                 (format!("({}) * ({})", a, b), da.and_then(|x| db.map(|y| dv_mul(&x, &y, 1)))) }
             2 => { let (a, da) = self.expr(depth - 1); let (b, db) = self.expr(depth - 1);
@@ -197,9 +212,19 @@ pub fn run_c02(o: &Opts) -> i32 {
     let (mut nerr, mut nok) = (0u64, 0u64);
     let mut g = G { db: &db, rng: &mut rng, fstats: BTreeMap::new() };
     // fixed corpus first
-    for (t, d) in [("meter^0", "-"), ("(m^2)^0 + 1", "-"), ("m^0 s", "s:1"), ("'a'^0", "-")] {
+    for (t, d) in [("meter^0", "-"), ("(m^2)^0 + 1", "-"), ("m^0 s", "s:1"), ("'a'^0", "-"),
+                   ("5 and 3 meter", "refuse"), ("3 meter and 5", "refuse"), ("12 second xor 5", "refuse"), ("0xff or 3 byte", "refuse"), ("meter and meter", "refuse"), ("6 and 3", "-"), ("6 m << 2", "m:1"), ("6 << 2 m", "refuse")] {
         writeln!(req, "{}", req_line(t)).unwrap();
         writeln!(aux, "{}", json!({"alg": d})).unwrap();
+    }
+    // an exponent that leaves i64 is refused, never dropped or wrapped: x = u^(2^62 - 2^32 + 1), x x fits, x x x does not
+    for u in ["meter", "second", "'widget'"] {
+        let x = format!("(({u}^2147483647)^2147483647)", u = u);
+        for t in ["{x} * {x} * {x}", "{x} * {x} * {x} * second", "{x} {x} {x} kg", "1 / {x} / {x} / {x}", "kg / ({x} {x} {x})", "({x} {x})^2", "({x} * {x} * {x}) / {x}", "{x} * {x} * {x} / ({x} * {x} * {x})",
+                  "({x} {x})^-2", "sqrt({x} {x} {x})", "hypot({x} {x} {x}, {x} {x} {x})", "{x} {x} {x} + {x} {x} {x}", "{x} {x} / {x}^-1", "(1 / {x} / {x}) / {x}"] {
+            writeln!(req, "{}", req_line(&t.replace("{x}", &x))).unwrap();
+            writeln!(aux, "{}", json!({"alg": "refuse"})).unwrap();
+        }
     }
     let mut k = 0;
     while k < n {
@@ -247,7 +272,8 @@ fn coef_pos(rng: &mut Rng) -> String {
 fn compound(db: &Db, rng: &mut Rng, depth: u32) -> String {
     match rng.below(if depth == 0 { 3 } else { 8 }) {
         0 | 1 => db.rand_name(rng),
-        2 => format!("{} {}", coef_pos(rng), db.rand_name(rng)),
+        // (now and then a constant far outside the range of a machine float: conversions are exact rational arithmetic)
+        2 => if rng.chance(1, 8) { format!("{}e{} {}", 1 + rng.below(9), *rng.pick(&[-400i64, 400, -330, 309, -1000, 1000]), db.rand_name(rng)) } else { format!("{} {}", coef_pos(rng), db.rand_name(rng)) },
         3 => format!("{} {}", compound(db, rng, depth - 1), compound(db, rng, depth - 1)),
         4 => format!("{} / ({})", compound(db, rng, depth - 1), compound(db, rng, depth - 1)),
         5 => format!("({})^{}", compound(db, rng, depth - 1), rng.range(-2, 3)),
@@ -337,7 +363,10 @@ pub fn run_c03(o: &Opts) -> i32 {
 // ------------------------------------------------------------------------------------ C09
 
 fn rand_value(rng: &mut Rng) -> String {
-    match rng.below(10) {
+    match rng.below(12) {
+        // beyond the range and precision of a machine float (the decomposition is exact rational arithmetic)
+        10 => format!("{}{}e{}", if rng.chance(1, 2) { "-" } else { "" }, 1 + rng.below(99), *rng.pick(&[309i64, 400, 1000, -330, -400, 308, -324])),
+        11 => format!("{}.{}", rng.next(), rng.next()),
         0 => "0".into(),
         1 => format!("{}", 1 + rng.below(100000)),
         2 => format!("-{}", 1 + rng.below(100000)),
@@ -361,7 +390,8 @@ pub fn run_c09(o: &Opts) -> i32 {
     let groups: Vec<&Vec<String>> = db.by_dim.values().filter(|v| v.len() >= 2).collect();
     let n = if o.thorough { 150_000 } else { 10_000 };
     // corpus: zero-valued member after `ans`, descending/ascending/repeats
-    for t in ["1 hour -> hour;minute;second", "-1000 s -> minute;second", "1 mile -> yard;foot;inch", "3 foot -> inch;foot", "0 m -> km;m"] {
+    for t in ["1 hour -> hour;minute;second", "-1000 s -> minute;second", "1 mile -> yard;foot;inch", "3 foot -> inch;foot", "0 m -> km;m",
+              "1e309 m -> km;m;mm", "1e300 lightyear -> parsec;m", "-1e400 s -> hour;minute;second", "1e-400 m -> m;mm", "-2 hour -> hour;minute", "-3.5 hour -> hour;minute;second"] {
         writeln!(req, "{}", req_line(t)).unwrap();
         let parts: Vec<&str> = t.split("->").collect();
         let v = eval_number(&db.ctx, parts[0]).unwrap();
